@@ -26,6 +26,7 @@ import (
 	"fmt"
 	"io"
 	"net"
+	"reflect"
 	"strings"
 	"sync"
 	"time"
@@ -59,9 +60,13 @@ type scriptConn struct {
 	frag     int
 	idle     bool // Watch is blocked in Read with nothing to read
 	reads    int
+	endReads int // Read calls answered with readEnd
 	writes   []writeRec
 	gates    map[int32]chan struct{} // held Write calls by sequence number
 	arrived  map[int32]bool
+	stream    []byte          // octets written and not yet re-framed (the peer's view)
+	misframed bool            // the written stream lost framing
+	partial   []chan struct{} // Write calls held because they left a frame unfinished
 	activity int64
 }
 
@@ -71,13 +76,30 @@ func newScriptConn(frag int) *scriptConn {
 	return c
 }
 
+// scriptTimeout is what a read deadline produces: a net.Error that calls itself temporary.
+type scriptTimeout struct{}
+
+func (scriptTimeout) Error() string   { return "scripted transport: i/o timeout" }
+func (scriptTimeout) Timeout() bool   { return true }
+func (scriptTimeout) Temporary() bool { return true }
+
 func (c *scriptConn) Read(p []byte) (int, error) {
 	c.mu.Lock()
-	defer c.mu.Unlock()
 	c.reads++
 	if len(p) == 0 {
+		c.mu.Unlock()
 		return 0, nil
 	}
+	if len(c.inbound) == 0 && c.readEnd != nil && c.endReads > 0 {
+		// a reader that keeps coming back after the transport ended gets the same answer, slowly and
+		// without counting as progress (so a retry loop cannot keep the scenario "busy")
+		err := c.readEnd
+		c.endReads++
+		c.mu.Unlock()
+		time.Sleep(300 * time.Microsecond)
+		return 0, err
+	}
+	defer c.mu.Unlock()
 	for len(c.inbound) == 0 && c.readEnd == nil && !c.closed {
 		c.idle = true
 		c.cond.Broadcast()
@@ -100,6 +122,7 @@ func (c *scriptConn) Read(p []byte) (int, error) {
 	if c.closed {
 		return 0, io.ErrClosedPipe
 	}
+	c.endReads++
 	return 0, c.readEnd
 }
 
@@ -112,15 +135,37 @@ func (c *scriptConn) Write(p []byte) (int, error) {
 	}
 	c.writes = append(c.writes, writeRec{append([]byte(nil), p...)})
 	c.activity++
+	// a writer parked on an unfinished frame is let go by the next Write call: somebody else got in between
+	for _, g := range c.partial {
+		close(g)
+	}
+	c.partial = nil
+	// the peer's view of the connection is the octet stream, re-framed by command_length: a request has ARRIVED
+	// (and can be answered) once its whole frame is in the stream at a frame boundary
+	c.stream = append(c.stream, p...)
 	var gate chan struct{}
-	if len(p) >= 16 {
-		id := binary.BigEndian.Uint32(p[4:8])
-		seq := int32(binary.BigEndian.Uint32(p[12:16]))
+	for len(c.stream) >= 16 && !c.misframed {
+		l := int(binary.BigEndian.Uint32(c.stream[0:4]))
+		if l < 16 || l > 65536 {
+			c.misframed = true
+			break
+		}
+		if len(c.stream) < l {
+			break
+		}
+		id := binary.BigEndian.Uint32(c.stream[4:8])
+		seq := int32(binary.BigEndian.Uint32(c.stream[12:16]))
 		if id != 0x80000000 { // generic_nack from Watch is never held
 			gate = make(chan struct{})
 			c.gates[seq] = gate
 			c.arrived[seq] = true
 		}
+		c.stream = c.stream[l:]
+	}
+	if len(c.stream) > 0 {
+		// this call left a frame unfinished (never with one Write per frame): hold it until another Write comes
+		gate = make(chan struct{})
+		c.partial = append(c.partial, gate)
 	}
 	c.cond.Broadcast()
 	c.mu.Unlock()
@@ -128,6 +173,18 @@ func (c *scriptConn) Write(p []byte) (int, error) {
 		<-gate
 	}
 	return len(p), nil
+}
+
+// releaseAll lets every held Write return (end of a scenario).
+func (c *scriptConn) releaseAll() {
+	for s, g := range c.gates {
+		close(g)
+		delete(c.gates, s)
+	}
+	for _, g := range c.partial {
+		close(g)
+	}
+	c.partial = nil
 }
 
 func (c *scriptConn) Close() error {
@@ -310,7 +367,7 @@ func (r *connRun) startCaller(i int) {
 		var rs int32
 		switch c.kind {
 		case "s":
-			resp, err := r.conn.Submit(c.ctx, new(pdu.EnquireLink))
+			resp, err := r.conn.Submit(c.ctx, callerRequest(c.seq))
 			if err != nil {
 				res = connErrClass(err)
 			} else {
@@ -346,7 +403,7 @@ func (r *connRun) startCaller(i int) {
 	// wait until the frame reached the transport or the call returned
 	for k := 0; k < 4000; k++ {
 		r.tr.mu.Lock()
-		arrived := r.tr.arrived[c.seq]
+		arrived := r.tr.arrived[c.seq] || len(r.tr.partial) > 0 // (parked on an unfinished frame: it will not get further)
 		r.tr.mu.Unlock()
 		r.mu.Lock()
 		ret := c.returned
@@ -356,6 +413,15 @@ func (r *connRun) startCaller(i int) {
 		}
 		time.Sleep(500 * time.Microsecond)
 	}
+}
+
+// callerRequest: what a Submit caller sends.  One in three carries a body (so that a frame is more than its
+// header and a torn or interleaved write shows), the others are the header-only enquire_link.
+func callerRequest(seq int32) pdu.Responsable {
+	if seq%3 == 1 {
+		return &pdu.SubmitSM{ServiceType: "x", Message: pdu.ShortMessage{Message: []byte("twenty octets of sm.")}}
+	}
+	return new(pdu.EnquireLink)
 }
 
 func frameOf(p interface{}) []byte {
@@ -430,6 +496,16 @@ func opConn(args []string) (out string) {
 			r.tr.mu.Lock()
 			if r.tr.readEnd == nil {
 				r.tr.readEnd = errors.New("scripted transport: read failed")
+			}
+			r.tr.activity++
+			r.tr.cond.Broadcast()
+			r.tr.mu.Unlock()
+			readEnded = true
+		case ev == "rtmo":
+			// the read deadline fires: a net.Error with Timeout() and Temporary() true
+			r.tr.mu.Lock()
+			if r.tr.readEnd == nil {
+				r.tr.readEnd = scriptTimeout{}
 			}
 			r.tr.activity++
 			r.tr.cond.Broadcast()
@@ -641,7 +717,9 @@ func opConn(args []string) (out string) {
 		if who >= 0 {
 			switch r.callers[who].kind {
 			case "s":
-				want = frameOf(&pdu.EnquireLink{Header: pdu.Header{Sequence: seq}})
+				q := callerRequest(seq)
+				pdu.WriteSequence(q, seq)
+				want = frameOf(q)
 			case "n":
 				want = frameOf(&pdu.DeliverSMResp{Header: pdu.Header{Sequence: seq}})
 			case "c":
@@ -758,10 +836,7 @@ func opConn(args []string) (out string) {
 		return strings.Join(l, ",")
 	}
 	// release everything still held so the goroutines can end
-	for _, g := range r.tr.gates {
-		close(g)
-	}
-	r.tr.gates = map[int32]chan struct{}{}
+	r.tr.releaseAll()
 	r.tr.closed = true
 	r.tr.cond.Broadcast()
 	go r.cancelAll()
@@ -846,6 +921,18 @@ func genConnScenario(r *gen.Rng, p connProfile) string {
 		}
 		return false
 	}
+	// a held caller whose own context is already done: if the connection context is cancelled as well before its Write
+	// returns, Submit's select finds two ready cases and Go picks either
+	heldOwnDone := func() bool {
+		for _, c := range cs {
+			if c.stage == 1 && c.ownDon && c.kind != "n" {
+				return true
+			}
+		}
+		return false
+	}
+	// a returning Close cancels the connection context
+	closeWouldRace := func() bool { return boxedHeld() || heldOwnDone() }
 	// a Close whose unbind_resp is on its way (queued behind a blocked offer, or boxed while its Write is held) will cancel
 	// the context and close the transport as soon as it gets it: anything fed AFTER that answer races with the teardown
 	closeAnswerPending := func() bool {
@@ -890,7 +977,7 @@ func genConnScenario(r *gen.Rng, p connProfile) string {
 			}
 			i := idle[r.Intn(len(idle))]
 			c := cs[i]
-			if c.kind == "c" && boxedHeld() {
+			if c.kind == "c" && closeWouldRace() {
 				continue // a returning Close cancels the connection context: not while a held caller has a boxed response
 			}
 			ev = append(ev, fmt.Sprintf("sub%d", i))
@@ -918,7 +1005,7 @@ func genConnScenario(r *gen.Rng, p connProfile) string {
 			if c.kind == "c" {
 				others := false
 				for j, o := range cs {
-					if j != i && o.stage == 1 && o.answered && o.kind != "n" {
+					if j != i && o.stage == 1 && (o.answered || o.ownDon) && o.kind != "n" {
 						others = true
 					}
 				}
@@ -968,7 +1055,7 @@ func genConnScenario(r *gen.Rng, p connProfile) string {
 			}
 			i := cand[r.Intn(len(cand))]
 			c := cs[i]
-			if c.kind == "c" && boxedHeld() {
+			if c.kind == "c" && closeWouldRace() {
 				continue // Close would cancel while another caller holds a boxed response
 			}
 			if r.Chance(25) {
@@ -1039,7 +1126,7 @@ func genConnScenario(r *gen.Rng, p connProfile) string {
 				watchGone = true
 			}
 		case choice < 70+p.unsolPct+p.badPct+p.drainPct:
-			if !drain && offeringBlocked && boxedHeld() {
+			if !drain && offeringBlocked && closeWouldRace() {
 				continue
 			}
 			drain = !drain
@@ -1050,7 +1137,7 @@ func genConnScenario(r *gen.Rng, p connProfile) string {
 					// responses queued behind the blocked PDU now reach their waiting callers
 					for _, c := range cs {
 						if c.stage == 2 && c.answered {
-							if c.kind == "c" && boxedHeld() {
+							if c.kind == "c" && closeWouldRace() {
 								// cannot happen: guarded when the answer was scripted
 							}
 							c.stage = 3
@@ -1069,13 +1156,7 @@ func genConnScenario(r *gen.Rng, p connProfile) string {
 				continue
 			}
 			// a held caller whose own context is already cancelled would find both contexts done when its Write returns
-			heldOwnDone := false
-			for _, c := range cs {
-				if c.stage == 1 && c.ownDon {
-					heldOwnDone = true
-				}
-			}
-			if heldOwnDone {
+			if heldOwnDone() {
 				continue
 			}
 			// callers whose response is queued behind a blocked offer would see both at drain1: keep it simple
@@ -1100,7 +1181,7 @@ func genConnScenario(r *gen.Rng, p connProfile) string {
 					readEnded = true
 				}
 			case 1:
-				ev = append(ev, "rerr")
+				ev = append(ev, r.PickStr("rerr", "rtmo"))
 				if !offeringBlocked {
 					readEnded, watchGone, connDone = true, true, true
 					markReturnedByDone()
@@ -1130,7 +1211,7 @@ func genConnScenario(r *gen.Rng, p connProfile) string {
 				var w []int
 				for i, c := range cs {
 					if c.stage >= 1 && c.stage <= 2 && !c.ownDon && !(c.stage == 1 && c.answered) && !(c.answered && offeringBlocked) &&
-						!(c.stage == 1 && connDone) && !(c.kind == "c" && !r.Chance(8)) {
+						!(c.stage == 1 && connDone) && !(c.stage == 1 && closeAnswerPending()) && !(c.kind == "c" && !r.Chance(8)) {
 						w = append(w, i)
 					}
 				}
@@ -1201,6 +1282,11 @@ func connInterleavings2(emit func(string)) {
 func init() {
 	gens["C05"] = func(r *gen.Rng, tier string, emit func(string)) {
 		connInterleavings2(emit)
+		// clause 3: responses built for several pipelined requests before any is sent
+		emit("respbatch 41 42 2147483647")
+		for i := 0; i < scale(tier, 3, 20); i++ {
+			emit(fmt.Sprintf("respbatch %d %d %d %d", r.Range(1, 1000), r.Range(1, 1<<30), r.Range(1, 1000), r.Range(1, 1<<30)))
+		}
 		p := connProfile{submit: 5, unsolPct: 10, drainPct: 6, events: 16}
 		for i := 0; i < scale(tier, 250, 1500); i++ {
 			p.submit = r.Range(1, 6)
@@ -1404,6 +1490,31 @@ func rawMutatedFrame(r *gen.Rng, seq int32) ([]byte, string) {
 		}
 		return f, "bad"
 	}
+	if r.Chance(25) {
+		// a valid frame WITHOUT optional parameters, cut short by 1..3 octets (command_length restated): the mandatory
+		// part is incomplete whichever field the cut falls in — in particular a trailing single-octet field
+		for {
+			p := r.PDU(randType(r), gen.Representable)
+			v := reflect.ValueOf(p).Elem()
+			for k := 0; k < v.NumField(); k++ {
+				if _, ok := v.Field(k).Addr().Interface().(*pdu.Tags); ok {
+					v.Field(k).Set(reflect.Zero(v.Field(k).Type()))
+				}
+			}
+			v.FieldByName("Header").Set(reflect.ValueOf(pdu.Header{Sequence: seq}))
+			f, cls, _, _ := doMarshal(p)
+			if cls != "nil" || len(f) <= 16 || len(f) > 300 {
+				continue
+			}
+			cut := r.Range(1, 3)
+			if cut > len(f)-16 {
+				cut = len(f) - 16
+			}
+			g := append([]byte{}, f[:len(f)-cut]...)
+			putBE32(g, uint32(len(g)))
+			return g, "bad"
+		}
+	}
 	for {
 		f, _ := validFrame(r, gen.Representable)
 		if len(f) > 260 {
@@ -1540,10 +1651,7 @@ func opConnKA(args []string) string {
 				todo = append(todo, tr.writes[handled].data)
 				handled++
 			}
-			for s, g := range tr.gates {
-				close(g)
-				delete(tr.gates, s)
-			}
+			tr.releaseAll()
 			tr.mu.Unlock()
 			for _, w := range todo {
 				if len(w) < 16 {
@@ -1613,10 +1721,7 @@ func opConnKA(args []string) string {
 	pmu.Unlock()
 	// let everything end
 	tr.mu.Lock()
-	for s, g := range tr.gates {
-		close(g)
-		delete(tr.gates, s)
-	}
+	tr.releaseAll()
 	tr.closed = true
 	tr.cond.Broadcast()
 	tr.mu.Unlock()
